@@ -78,6 +78,8 @@ def run(tier, seed, replay):
             keep += r.sample([g for g in d1 if " as [" in g["p"] or " as {" in g["p"]], 250)                      # destructuring bindings inside path expressions
             d1 = keep + r.sample(d1, 600)
         cases, pairs = [], []
+        # null-valued keys / elements, nested: deleting or updating a member that EXISTS and holds null is not the same as a missing one
+        nullish = [jqgen.V(x) for x in ({"a": None, "b": 1}, {"a": {"b": None}, "b": None}, [None, 1, None], {"a": [None], "b": {"a": None}}, [{"a": None}, None])]
 
         def add(src, inputs, ref=None):
             cases.append({"id": len(cases), "src": CTX + src, "inputs": inputs})
@@ -88,7 +90,7 @@ def run(tier, seed, replay):
         for g in d1 + [g for g in gen if g["d"] == 2]:
             fs = forms(g["p"], r)
             for kind, src, ref in (fs if not quick else [fs[0], fs[1], fs[2]] + r.sample(fs[3:], 2)):
-                add(src, r.sample(uni, 2 if quick else 3), ref)
+                add(src, r.sample(uni, 1 if quick else 3) + [r.choice(nullish)], ref)
         for g in [g for g in gen if g["d"] == 0]:
             ins = r.sample(heapin, 2 if quick else 4)
             add("%s |= %s" % (g["p"], g["f"]), ins, MODIFY_DEF + "_m(%s; %s)" % (g["p"], g["f"]))
